@@ -83,8 +83,17 @@ def run(ck, ctx):
          "register numbers 0..7 map to R0..R7, everything else is an error"),
         ("ast::Reg::reg_no", "(discr(arg1) as u8)", "a register's number is its variant index"),
     ]
+    # equivalent spellings (each read and confirmed to compute the same function): `strip_prefix('#').unwrap_or(s)` for the
+    # optional '#', and an explicit match for the ok/filter/ok_or chain of lex_reg
+    dec2 = "Option::unwrap_or(strip_prefix(Lexer::slice(arg1), 35), Lexer::slice(arg1))"
+    P8 = "parse_u8(index(Lexer::slice(arg1), RangeFrom(1)))"
+    alts = {
+        "parse::lex::lex_unsigned_dec": ["Result::map_err(parse_u16(%s), %s[convert_int_error(ParseIntError::kind(arg2), LexErr::InvalidNumeric(), LexErr::InvalidDecEmpty(), LexErr::DoesNotFitU16(), @entry{%s})](%s))" % (dec2, L, dec2, dec2)],
+        "parse::lex::lex_signed_dec": ["Result::map_err(parse_i16(%s), %s[convert_int_error(ParseIntError::kind(arg2), LexErr::InvalidNumeric(), LexErr::InvalidDecEmpty(), LexErr::DoesNotFitI16(), @entry{%s})](%s))" % (dec2, L, dec2, dec2)],
+        "parse::lex::lex_reg": ["Result::Err(LexErr::InvalidReg()) ; [8 in [1,None] & discr(%s) in [0,0] & %s as Ok.0 in [None,7]] => Result::Ok(%s as Ok.0)" % (P8, P8, P8)],
+    }
     for path, want, what in forms:
-        nf.expect_deep(ck, F, "C05.3", path.split("::")[-1] if not path.startswith("<") else "Reg::try_from", path, [want], what, file="src/parse/lex.rs" if "lex" in path else "src/ast.rs", norm=nf.anon_locals)
+        nf.expect_deep(ck, F, "C05.3", path.split("::")[-1] if not path.startswith("<") else "Reg::try_from", path, [want] + alts.get(path, []), what, file="src/parse/lex.rs" if "lex" in path else "src/ast.rs", norm=nf.anon_locals)
     regs = parsex.variants(F, "ast::Reg")
     ck.ob("C05.3", "Reg-variants", regs == ["R%d" % i for i in range(8)], "Reg variants in numeric order: %s" % regs, "src/ast.rs")
     # ---------------------------------------------------------------- C05.4 field widths and signedness
@@ -122,8 +131,12 @@ def run(ck, ctx):
          "[discr(try(Parser::match_(arg1)) as Some.0) in [0,0] & discr(try(Parser::match_(arg1))) in [1,1] & ok(Parser::match_(arg1))] => Result::Ok(ImmOrReg::Imm(try(Parser::match_(arg1)) as Some.0 as Left.0)) ; [discr(try(Parser::match_(arg1)) as Some.0) in [1,1] & discr(try(Parser::match_(arg1))) in [1,1] & ok(Parser::match_(arg1))] => Result::Ok(ImmOrReg::Reg(try(Parser::match_(arg1)) as Some.0 as Right.0)) ; [discr(try(Parser::match_(arg1))) in [0,0] & ok(Parser::match_(arg1))] => Result::Err(ParseErr::new(str'expected register or immediate value', Parser::cursor(arg1))) ; [fail(Parser::match_(arg1))] => propagate(Parser::match_(arg1))",
          "an imm5-or-register operand is an immediate of the field's type or a register"),
     ]
+    # the explicit-match spelling of `try_from(n).map_err(..)?` (same value, same error)
+    conv2 = lambda t, err: ("Result::map_err(Offset::new(phi{discr(arg1) in [0,0] => arg1 as Left.0 | discr(arg1) in [1,1] & discr(try_into_%s(arg1 as Right.0)) in [0,0] => try_into_%s(arg1 as Right.0) as Ok.0}), %s[ParseErr::wrap(arg2, @entry{arg2})](arg2)) ; "
+                            "[discr(arg1) in [1,1] & discr(try_into_%s(arg1 as Right.0)) in [1,1]] => Result::Err(ParseErr::wrap(LexErr::%s(), arg2))") % (t, t, L, t, err)
+    alts5 = {"<ast::Offset<i16, N> as parse::simple::TokenParse>::convert": [conv2("i16", "DoesNotFitI16")], "<ast::Offset<u16, N> as parse::simple::TokenParse>::convert": [conv2("u16", "DoesNotFitU16")]}
     for path, want, what in forms:
-        nf.expect_deep(ck, F, "C05.5", path.split(" as ")[0].lstrip("<") + ("::" + path.rsplit("::", 1)[1]), path, [want], what, file="src/parse.rs")
+        nf.expect_deep(ck, F, "C05.5", path.split(" as ")[0].lstrip("<") + ("::" + path.rsplit("::", 1)[1]), path, [want] + alts5.get(path, []), what, file="src/parse.rs")
     # the generic arguments of the two match_ calls above (which Either is matched)
     for path, want in (("<ast::PCOffset<OFF, N> as parse::Parse>::parse", "parse::simple::Either<ast::Offset<OFF, N>, ast::Label>"), ("<ast::ImmOrReg<N> as parse::Parse>::parse", "parse::simple::Either<ast::Offset<i16, N>, ast::Reg>")):
         b = F.bodies.get(path)
@@ -143,10 +156,10 @@ def run(ck, ctx):
         ok = False
         combos = None
         if len(aggs) == 1:
-            pcs = nf.path_conditions(db, aggs[0][0], lambda x: x.startswith("Ne(0, Offset::get("))
+            pcs = nf.path_conditions(db, aggs[0][0], lambda x: x.startswith(("Ne(0, Offset::get(", "Eq(0, Offset::get(")))
             combos = sorted(sorted(pc) for pc in (pcs or []))
-            ok = len(combos) == 1 and len(combos[0]) == 1 and combos[0][0][1] == "1" and combos[0][0][0].startswith("Ne(0, Offset::get(try(Parser::parse(arg1))")
-        ck.ob("C05.5", "blkw-nonzero", ok, ".blkw is built only on the edge size != 0: %s" % combos, "src/parse.rs:%s" % db.line)
+            ok = len(combos) == 1 and len(combos[0]) == 1 and combos[0][0][1] == "0" and combos[0][0][0].startswith("Eq(0, Offset::get(try(Parser::parse(arg1))")
+        ck.ob("C05.5", "blkw-nonzero", ok, ".blkw is built only on the edge size != 0 (positive form: the 0 edge of Eq(0, size)): %s" % combos, "src/parse.rs:%s" % db.line)
     nf.expect_deep(ck, F, "C05.5", "IntLiteral", "<parse::simple::IntLiteral as parse::simple::DirectTokenParse>::match_",
                    ["Result::Err(ParseErr::new(str'expected immediate value', clone(arg2))) ; [discr(arg1 as Some.0) in [%d,%d] & discr(arg1) in [1,1]] => Result::Ok(IntLiteral(arg1 as Some.0 as Unsigned.0)) ; "
                     "[discr(arg1 as Some.0) in [%d,%d] & discr(arg1) in [1,1]] => Result::Ok(IntLiteral((arg1 as Some.0 as Signed.0 as u16)))" % (u, u, s_, s_)],
